@@ -201,6 +201,40 @@ def pairs():
     return out
 
 
+def namespace_failure(opts):
+    """A class whose methods come from two modules that define the same global name with equal
+    but distinct values (1 vs 1.0, two empty lists).  The optimizer either refuses (symbol
+    disagreement) or produces a class that behaves like the unoptimized one -- result types and
+    the list each method logs to included."""
+    import importlib
+
+    import vf.optmappers as om1
+    import vf.optmappers2 as om2
+    from pymbolic.mapper import optimize
+    from pymbolic.mapper.optimize import optimize_mapper
+    optimize._get_ast_for_file.cache_clear()
+    expr = build(Sum(X, C(4), Prod(Y, C(2))))
+    try:
+        cls = optimize_mapper(**opts)(om2.OptUnitSub)
+    except ValueError:
+        return None                                 # refused: nothing is claimed
+    except RecursionError:
+        raise
+    except Exception as e:  # noqa: BLE001
+        return ("optimizer-raises", f"optimize_mapper({opts}) on a two-module class raised {e!r}")
+    outs = []
+    for c in (om2.OptUnitSub, cls):
+        om1.LOG.clear()
+        om2.LOG.clear()
+        res = c()(expr)
+        outs.append((sort_maps(to_spec(res)), [x[0] for x in om1.LOG], [x[0] for x in om2.LOG]))
+    importlib.invalidate_caches()
+    if outs[0] != outs[1]:
+        return ("two-module-class", f"optimize_mapper({opts}): the unoptimized class gives "
+                f"{outs[0]}, the optimized one {outs[1]}")
+    return None
+
+
 def wide_failure(name, n):
     """ONE call on an expression with more than *n* distinct nodes, every one of which occurs a
     second time later in the tree: (v0 + ... + v_n-1) / (v0 * ... * v_n-1) + (v0 + ... + v_n-1).
@@ -312,7 +346,8 @@ class C05(Check):
             "a mapper overriding handlers that are alias targets, "
             "two argument-keeping mappers) (32 + 32 + 32 + 32 + 4 + 4 option combinations), each "
             "in a fresh process state and after an earlier use of the optimizer with other "
-            "options; wide: one call on a tree with 1100 (thorough 300 / 1100 / 2100) distinct operands "
+            "options; a class whose methods come from two modules with equal-but-distinct globals of "
+            "one name (refused, or same behaviour) under every option combination; wide: one call on a tree with 1100 (thorough 300 / 1100 / 2100) distinct operands "
             "that all occur three times, no key computed twice; constructor parity: every prefix of every positional flag vector gives "
             "CachedDependencyMapper, DependencyMapper and the documented keywords the same result. A "
             "state is a history with exact repeats removed; every transition replays its history "
@@ -354,13 +389,24 @@ class C05(Check):
                     continue
                 for n in ((1100,) if tier == "quick" else (300, 1100, 2100)):
                     yield ("wide", name, n)
-        return [("stock-pairs", stock), ("optimized", optimized),
+        def namespaces():
+            for o in opt_combos("OptRenamer"):
+                yield ("namespace", tuple(sorted(o.items())))
+        return [("stock-pairs", stock), ("optimized", optimized), ("two-module-classes", namespaces),
                 ("constructor-parity", parity), ("wide", wide)]
 
     def check_item(self, family, item, tier):
         r = Res()
         if item[0] == "replay":             # a recorded witness carries the tier it was found in
             tier, item = item[1], tuple(item[2])
+        if item[0] == "namespace":
+            r.evals += 1
+            r.keys.append(item)
+            f = namespace_failure(dict(item[1]))
+            if f:
+                on = "+".join(k for k, v in sorted(dict(item[1]).items()) if v) or "none"
+                r.fail(f[0], f"{f[0]}|{on}", f[1])
+            return r
         if item[0] == "wide":
             r.evals += 1
             r.keys.append(item)
